@@ -1,4 +1,5 @@
 # chuk_mcp/transports/stdio/stdio_client.py
+import codecs
 import logging
 import sys
 import traceback
@@ -147,12 +148,14 @@ class StdioClient:
             assert self.process and self.process.stdout
 
             buffer = ""
+            # Incremental decoder: a read may end inside a multi-byte character
+            decoder = codecs.getincrementaldecoder("utf-8")()
             logger.debug("stdout_reader started")
 
             async for chunk in self.process.stdout:
                 # Handle both bytes and string chunks
                 if isinstance(chunk, bytes):
-                    buffer += chunk.decode("utf-8")
+                    buffer += decoder.decode(chunk)
                 else:
                     buffer += chunk
 
